@@ -188,6 +188,9 @@ class Impl:
             b = lambda v: "true" if v else "false"
             return "st %s %s %s %s %d" % (b(s._started), b(s._finished), "none" if sc is None else sc,
                                           "none" if ob is None else hx(ob), s.pw_scalar)
+        if op == "p.mns":
+            P = self.params[int(ws[1])]
+            return "ok %s %s %s" % (hx(P.M.to_bytes()), hx(P.N.to_bytes()), hx(P.S.to_bytes()))
         if op == "entleft":
             e = self.entropies[int(ws[1])]
             return "ok %d" % (0 if e is None else len(e.stream) - e.pos)
